@@ -128,6 +128,52 @@ func shapeStep(r *ev.Run, w *c04.World, ac *proxyrig.PGClient, st proxyrig.Step,
 			if fmt.Sprint(got.ResultFormatCodes) != fmt.Sprint(x.ResultFormatCodes) {
 				r.Violation(sig("Bind result format codes changed", typ), detail(nil))
 			}
+			// effective format of every parameter: no code = all text, one code = that code for all, else one per parameter
+			eff := func(codes []int16, i int) int16 {
+				switch len(codes) {
+				case 0:
+					return 0
+				case 1:
+					return codes[0]
+				}
+				if i < len(codes) {
+					return codes[i]
+				}
+				return 0
+			}
+			if n := len(got.ParameterFormatCodes); n > 1 && n != len(got.Parameters) {
+				r.Violation(sig("forwarded Bind has a format code list that is neither empty, single nor one per parameter", typ), detail(map[string]interface{}{"codes": fmt.Sprint(got.ParameterFormatCodes), "params": len(got.Parameters)}))
+			}
+			mixed := false
+			for pi := range x.Parameters {
+				if eff(x.ParameterFormatCodes, pi) != eff(x.ParameterFormatCodes, 0) {
+					mixed = true
+				}
+			}
+			for pi := range x.Parameters {
+				fs, fg := eff(x.ParameterFormatCodes, pi), eff(got.ParameterFormatCodes, pi)
+				if fs != fg {
+					if !configuredParam(pi) {
+						r.Violation(sig("format code of a parameter of an unconfigured column changed", typ), detail(map[string]interface{}{"param": pi, "sent_codes": fmt.Sprint(x.ParameterFormatCodes), "forwarded_codes": fmt.Sprint(got.ParameterFormatCodes), "sent": ev.Hex(x.Parameters[pi]), "got": ev.Hex(got.Parameters[pi])}))
+					} else {
+						r.Count("bind_configured_parameter_format_changed", 1)
+					}
+				} else {
+					r.Count("bind_parameter_formats_compared", 1)
+				}
+			}
+			rewritten := false
+			for pi := range x.Parameters {
+				if !bytes.Equal(x.Parameters[pi], got.Parameters[pi]) {
+					rewritten = true
+				}
+			}
+			if rewritten && mixed && len(x.Parameters) >= 3 {
+				r.Count("rewritten_binds_with_mixed_formats_and_3plus_parameters", 1)
+				if st.FormatPattern != "" {
+					r.Count("rewritten_binds_first_and_last_format_alike_middle_different", 1)
+				}
+			}
 			for pi := range x.Parameters {
 				if (x.Parameters[pi] == nil) != (got.Parameters[pi] == nil) {
 					r.Violation(sig("Bind NULL marker changed", typ), detail(map[string]interface{}{"param": pi}))
